@@ -36,13 +36,15 @@ SigRec(e) == [exc |-> e.sig.exc, bc |-> "", cat |-> ToSet(e.sig.cat)]
 \* result of a string-valued probe, decoded
 ObsStr(e, r) == IF "ok" \in DOMAIN r THEN [ok |-> Decode(e.lo, r.ok)] ELSE r
 
+\* the order of api::CTX_RULES in the harness
+RuleSeq == <<"zwnj", "zwj", "middle_dot", "keraia", "hebrew", "katakana", "arabic_indic", "ext_arabic_indic">>
 DirExp(W, label) == IF DirectionalityOk(W, label) THEN "T" ELSE "F"
 
 \* the set of observables of a scalar run that disagree with the specification
 BadFieldsCp(e) ==
   LET W == World(e)  c == e.lo  o == e.obs  sg == SigRec(e)
       a == 97  A == 65  R == 1488  AN == 1633 IN
-  {f \in {"id", "idc", "ff", "ffc", "reg", "regdom", "vir", "greek", "hebrew", "kana", "ld", "rd",
+  {f \in {"id", "idc", "ff", "ffc", "reg", "regdom", "vir", "greek", "hebrew", "kana", "ld", "rd", "mdl", "mdr", "aidx", "eaidx", "own",
           "wm1", "wm2", "wm3", "wm4", "osp2", "nsp2", "lc1", "lc2", "lc3", "osp", "nsp", "bidi1", "bidi2", "bidi3", "bidi4", "bidi5",
           "sigexc", "sigascii"} :
      CASE f = "id"  -> o.id  # Derived(sg, "Id")
@@ -55,6 +57,11 @@ BadFieldsCp(e) ==
        [] f = "greek"  -> o.greek  # Rule(W, "keraia", <<KERAIA, c>>, 0)
        [] f = "hebrew" -> o.hebrew # Rule(W, "hebrew", <<c, GERESH>>, 1)
        [] f = "kana"   -> o.kana   # Rule(W, "katakana", <<KATAKANA_MIDDLE_DOT, c>>, 0)
+       [] f = "mdl"    -> o.mdl    # Rule(W, "middle_dot", <<c, MIDDLE_DOT, LATIN_L>>, 1)
+       [] f = "mdr"    -> o.mdr    # Rule(W, "middle_dot", <<LATIN_L, MIDDLE_DOT, c>>, 1)
+       [] f = "aidx"   -> o.aidx   # Rule(W, "arabic_indic", <<1632, c>>, 0)
+       [] f = "eaidx"  -> o.eaidx  # Rule(W, "ext_arabic_indic", <<1776, c>>, 0)
+       [] f = "own"    -> o.own    # [i \in 1..8 |-> Rule(W, RuleSeq[i], <<c>>, 0)]
        [] f = "ld"     -> o.ld     # Rule(W, "zwnj", <<c, ZWNJ, 1576>>, 1)
        [] f = "rd"     -> o.rd     # Rule(W, "zwnj", <<1576, ZWNJ, c>>, 1)
        [] f = "wm1" -> ObsStr(e, o.wm[1]) # Ok(WidthMap(W, <<c>>))
